@@ -11,6 +11,7 @@ import (
 	"math/rand"
 	"os"
 	"path/filepath"
+	"runtime/debug"
 	"sort"
 	"strconv"
 	"strings"
@@ -123,6 +124,24 @@ func (w *Writer) Add(c Case) {
 
 func (w *Writer) Len() int { return w.n }
 
+// Guard, deferred in a harness's main right after the writer is created, turns a panic of the
+// harness (typically an implementation call that "cannot fail" failing on a changed tree) into a
+// recorded failing case, so that the cases gathered so far are still evaluated and the abort is
+// reported with what failed rather than as a bare harness crash.
+func (w *Writer) Guard() {
+	if p := recover(); p != nil {
+		st := string(debug.Stack())
+		if len(st) > 3000 {
+			st = st[:3000]
+		}
+		w.Add(Case{Coq: "", Key: "harness-abort", Input: map[string]interface{}{"op": "harness-abort"},
+			Impl:   map[string]interface{}{"panic": fmt.Sprint(p), "stack": st},
+			PropOK: false, Note: "harness aborted: a call that succeeds on every tree where the property holds failed: " + fmt.Sprint(p), Tags: []string{"harness-abort"}})
+		w.Close()
+		os.Exit(0)
+	}
+}
+
 func (w *Writer) Close() {
 	w.jsonl.Close()
 	nsh := 0
@@ -134,13 +153,18 @@ func (w *Writer) Close() {
 		var b strings.Builder
 		b.WriteString(w.header)
 		b.WriteString("\nDefinition cases : list (N * case) := [\n")
+		first := true
 		for k := i; k < j; k++ {
-			sep := ";"
-			if k == j-1 {
-				sep = ""
+			if w.cases[k].Coq == "" { // recorded in cases.jsonl only (see Guard)
+				continue
 			}
-			fmt.Fprintf(&b, " (%d%%N, %s)%s\n", k, w.cases[k].Coq, sep)
+			if !first {
+				b.WriteString(";\n")
+			}
+			first = false
+			fmt.Fprintf(&b, " (%d%%N, %s)", k, w.cases[k].Coq)
 		}
+		b.WriteString("\n")
 		b.WriteString("].\n")
 		b.WriteString("Definition bad : list N := Eval vm_compute in (List.map fst (List.filter (fun c => negb (check (snd c))) cases)).\nPrint bad.\n")
 		os.WriteFile(filepath.Join(w.dir, fmt.Sprintf("cases_%03d.v", nsh)), []byte(b.String()), 0o644)
@@ -168,10 +192,10 @@ func (w *Writer) Close() {
 
 // ---- Coq term printers ----
 
-func Z(v int64) string { return "(" + strconv.FormatInt(v, 10) + ")%Z" }
+func Z(v int64) string       { return "(" + strconv.FormatInt(v, 10) + ")%Z" }
 func ZBig(v *big.Int) string { return "(" + v.String() + ")%Z" }
-func Nn(v uint64) string { return strconv.FormatUint(v, 10) + "%N" }
-func Nat(v int) string   { return strconv.Itoa(v) + "%nat" }
+func Nn(v uint64) string     { return strconv.FormatUint(v, 10) + "%N" }
+func Nat(v int) string       { return strconv.Itoa(v) + "%nat" }
 func Bool(b bool) string {
 	if b {
 		return "true"
@@ -184,8 +208,8 @@ func Opt(s *string) string {
 	}
 	return "(Some " + *s + ")"
 }
-func Some(s string) string { return "(Some " + s + ")" }
-func List(xs []string) string { return "[" + strings.Join(xs, "; ") + "]" }
+func Some(s string) string     { return "(Some " + s + ")" }
+func List(xs []string) string  { return "[" + strings.Join(xs, "; ") + "]" }
 func Pair(xs ...string) string { return "(" + strings.Join(xs, ", ") + ")" }
 
 // Hex renders bytes as a Coq term of type `list byte` via V.Base.Bytes.hex.
